@@ -9,7 +9,7 @@ CHECKS = {
     category="model_checking", design_ref="DESIGN.md §5 C04, §4.4",
     technique="stateless exploration of the real simulation loop under a scheduler that owns every random draw (deviation-bounded DFS over answer sequences), each execution replayed against a reference CTMC",
     text="Every execution of solve_stochast (exact, fixed-tau and adaptive tau-leap) whose answers to the library's exponential/poisson draws deviate from the default in at most D places is enumerated for every event-only definition within k edits of the seed models; each execution must start at (x0,t0), have increasing times, natural counts (one per step in exact mode), dx = V*counts, equal the reference path computed from the same answers, and return for the right reason.",
-    note="Trusted: sympy evaluation of the reference rates; numpy draws reach the library only via numpy.random.exponential/poisson (checked per execution). Bounds: populations <= 5, menus of 4 answers per draw; deviation bound quick: 1 within one edit of three seeds, 2 on the seeds; thorough: 1 within one edit of seven seeds (all initial states and horizons), 2 within one edit of the three quick seeds, 3 on the seeds (11 million executions, 36 min). Initial states are handed over integer-typed and float-typed alternately."),
+    note="Trusted: sympy evaluation of the reference rates; numpy draws reach the library only via numpy.random.exponential/poisson (checked per execution). Bounds: populations <= 5 (800-1000 in the large-population leg: mean-relative poisson answers, four default steps, deviation bound 2; 660-800 events in the all-default long exact runs), menus of 4 answers per draw; deviation bound quick: 1 within one edit of three seeds, 2 on the seeds; thorough: 1 within one edit of seven seeds (all initial states and horizons), 2 within one edit of the three quick seeds, 3 on the seeds (11 million executions, 36 min). Initial states are handed over integer-typed and float-typed alternately."),
  "C05": dict(
     category="model_checking", design_ref="DESIGN.md §5 C05",
     technique="explicit-state search of the jump chain through the real firstReaction (every reachable state x every ordering of the enabled clocks), generator matrix assembled from requested scales and observed successors, compared with closed-form laws; conformance replay of free-running seeded runs",
@@ -19,16 +19,16 @@ CHECKS = {
     category="model_checking", design_ref="DESIGN.md §5 C10",
     technique="generator exploration of transition-only definitions (symbolic sum of the ODE), solver runs, and scheduler-driven exploration of simulations with the conservation invariant on every recorded state",
     text="(a) all transition-only definitions within D edits of three seeds: sum(ode)==0 symbolically and numerically and ode equals the reference; (b) integrate/solve_determ/integrate2 row sums constant; (c) every explored execution of exact and tau-leap simulation and every step from every reachable state keeps the total exactly.",
-    note="sympy decides the symbolic identity; populations <= 5; deviation bound 1 around the seeds and 2 on them (quick); 1 and 2 around them, 3 on them (thorough)."),
+    note="sympy decides the symbolic identity; populations <= 5 (1000 in the large-population leg with mean-relative poisson answers); deviation bound 1 around the seeds and 2 on them (quick); 1 and 2 around them, 3 on them (thorough)."),
  "C11": dict(
     category="model_checking", design_ref="DESIGN.md §5 C11",
     technique="explicit-state search through the real step functions (every clock ordering / poisson answer vector from every reachable and every limit-boundary state) plus deviation-bounded exploration of whole simulations",
-    text="Definitions with absent, lower, upper, two-sided, (None,None) and very large limits, list/tuple/range declarations, constant-rate deaths, magnitudes up to 3, hybrid models with ODE terms: every recorded state inside its limits, every illegal proposal refused with state and time unchanged, path equal to the reference that refuses exactly the illegal proposals.",
+    text="Definitions with absent, lower, upper, two-sided, (None,None), non-positive (-3,0) and very large limits, populations of a few individuals and (large-population leg) of hundreds with mean-relative poisson answers, list/tuple/range declarations, constant-rate deaths, magnitudes up to 3, hybrid models with ODE terms: every recorded state inside its limits, every illegal proposal refused with state and time unchanged, path equal to the reference that refuses exactly the illegal proposals.",
     note="Lower limit 0 assumed when none is declared; executions that leave the domain of non-negative rates (only when the user declared no lower limit) are not judged."),
  "C15": dict(
     category="model_checking", design_ref="DESIGN.md §5 C15",
     technique="deviation-bounded exploration of solve_stochast with a time grid under the draw scheduler; expected rows and per-interval per-event counts computed from the reference path for the same answers",
-    text="Grids (uniform, fine with many empty intervals, late start, long tail past extinction, near-miss grid times a hair before/after event times, two points) x list/tuple/ndarray x exact/fixed/adaptive tau x initial states with and without enabled events: one row per time, first row x0, exact-mode rows are the path state at t_k, counts are per-event counts of (t_k,t_k+1], rows differ by V*counts.",
+    text="Grids (uniform, fine with many empty intervals, late start, long tail past extinction, near-miss grid times a hair before/after event times, two points, unequally spaced with first step = mean step) x list/tuple/ndarray x exact/fixed/adaptive tau x initial states with and without enabled events: one row per time, first row x0, exact-mode rows are the path state at t_k, counts are per-event counts of (t_k,t_k+1], rows differ by V*counts.",
     note="Event times never coincide with grid times (skipped and counted if they do); tau-leap rows are interpolated by design, only shape, first row and total counts are judged there."),
  "C16": dict(
     category="model_checking", design_ref="DESIGN.md §5 C16",
